@@ -91,6 +91,8 @@ def run(tier, seed):
                 got = ('ok', r['ok'], r['msg'])
             except exc.InvalidInput as e:
                 got = ('InvalidInput', str(e))
+            except Exception as e:
+                got = ('unexpected ' + type(e).__name__, str(e)[:80])
             if good:
                 ok = got[0] == 'ok' and got[1] is True
             elif how == 'err':
@@ -112,6 +114,8 @@ def run(tier, seed):
                     got = ('ok', r['ok'], r['msg'])
                 except exc.InvalidInput as e:
                     got = ('InvalidInput', str(e))
+                except Exception as e:
+                    got = ('unexpected ' + type(e).__name__, str(e)[:80])
                 if full:
                     ok = got[0] == 'ok' and got[1] is True
                 elif how == 'err':
@@ -129,6 +133,8 @@ def run(tier, seed):
                     got = ('InvalidInput',)
                 except exc.ConfigError:
                     got = ('ConfigError',)
+                except Exception as e:
+                    got = ('unexpected ' + type(e).__name__,)
                 if re.fullmatch(p, a) is None:
                     want = ('ConfigError',)
                 elif not full:
